@@ -1,4 +1,4 @@
-import NumbatModel.Lemmas.QtyDim
+import NumbatModel.Lemmas.QtyCanon
 set_option linter.unusedSectionVars false
 /-!
 # C01 — accepted programs never go wrong dimensionally at run time
@@ -8,13 +8,13 @@ prefixes, `+ − × ÷`, negation, powers with compile-time exponents).  `HasDim
 over dimension vectors, `evalQ` the run-time semantics (the VM's quantity operations), `ValOK` says that a
 run-time value agrees with a static dimension.
 
-Full statement (`soundness`): for every typed expression, evaluation never fails with a unit
-incompatibility and every value has the dimension of its static type.  What is proved is
-`soundness_partial`: the same under the explicit hypothesis `ConvComplete` — conversions between units of
-equal dimension vector succeed — which is the canonical-form property of base representations; it is not
-yet a theorem here and is validated on the implementation exhaustively over unit pairs by C04.  The
-statements about functions, structs and lists of the property are covered by the correspondence /
-implementation oracle of this check only (they need the typed core language of C09/C02).
+`soundness`: for every typed expression over a unit table with distinct unit names, evaluation never fails
+with a unit incompatibility and every value has the dimension of its static type.  It follows from
+`soundness_partial` (the same under the explicit hypothesis `ConvComplete`: conversions between units of
+equal dimension vector succeed) and `convComplete` (Lemmas/QtyCanon.lean: the canonical form of base
+representations is unique, so equal dimension vectors give equal base representations).  The statements
+about functions, structs and lists of the property are covered by the implementation oracle of this check
+only (they need the typed core language of C09/C02).
 -/
 namespace NumbatModel.Qty
 open NumOps LawfulNum
@@ -174,6 +174,13 @@ theorem soundness_partial (tbl : Table α) (hc : ConvComplete tbl) (e : QExpr α
         · right; intro b
           simp only [unitVec_power, hvx]
     · right; simp only [evalQ, he]
+
+/-- **Soundness**, unconditional in the conversion hypothesis: for every unit table whose rows have distinct
+names (checked by the kernel on the regenerated prelude table), a well-typed expression evaluates to a value
+that agrees with its static dimension, or fails with a division by zero. -/
+theorem soundness (tbl : Table α) (hn : NamesDistinct tbl) (e : QExpr α) (d : DimV) (ht : HasDim tbl e d) :
+    (∃ q, evalQ tbl e = .ok q ∧ ValOK tbl q d) ∨ evalQ tbl e = .error .divZero :=
+  soundness_partial tbl (convComplete tbl hn) e d ht
 
 /-- corollary: a well-typed expression never fails with a unit incompatibility -/
 theorem no_incompatible_units (tbl : Table α) (hc : ConvComplete tbl) (e : QExpr α) (d : DimV)
